@@ -910,7 +910,8 @@ pub fn fuzz_stage(prop: Arc<dyn Prop>, tier: Tier, out: &mut RunOutcome) -> Opti
         d
     };
     let mut cmd = std::process::Command::new(&bin);
-    cmd.env("PV_FUZZ_PROP", prop.id()).env("PV_ROOT", &root);
+    // the targets must not redirect fd 2: libFuzzer's fork mode reads each job's statistics from it
+    cmd.env("PV_FUZZ_PROP", prop.id()).env("PV_ROOT", &root).env("PV_KEEP_STDERR", "1");
     cmd.arg(format!("-artifact_prefix={}/", arts.display()))
         .arg(format!("-max_total_time={}", secs))
         .arg(format!("-seed={}", verif_seed().max(1)))
